@@ -48,7 +48,7 @@ META = {
         "choices) with <= dev_bound deviations from 'root only', enumerated by the choice explorer. cycle part: every tree "
         "<= cycle_max_nodes nodes x every /Pages node x every Kids position x every target node for one extra Kids entry. "
         "geometry part: 13 Rotate values x 6 MediaBoxes (3 of them given by reversed corners) x {on page, on parent} x CropBox {absent, present} x 3 spellings, "
-        "through PDFPageAggregator(laparams=None) and extract_pages. selection part: 3 four-page trees x 64 page_numbers sets "
+        "through PDFPageAggregator(laparams=None) and extract_pages; the rotation= argument of extract_text_to_fp over {0,90,180,270,360,-90,450} x the 13 page Rotate values x 6 MediaBoxes, observed through the XML output parsed back (page box, a filled rectangle, the glyph) against (Rotate + rotation) mod 360. selection part: 3 four-page trees x 64 page_numbers sets "
         "(all subsets of {0..4}, with and without an out-of-range 7) x maxpages 0..5 x {get_pages, extract_text, extract_pages}. "
         "A case is one document (or one selection call); non-trivial = at least one page takes at least one attribute from an "
         "ancestor, or Rotate != 0 / MediaBox origin != 0, or a non-empty selection. states/transitions = choice-tree nodes/edges "
@@ -395,6 +395,76 @@ def fam_cycle(st, tier, n, tree_index):
 GEOM_SPELL = (0, 1, 2)
 
 
+ROTATION_ARGS = (0, 90, 180, 270, 360, -90, 450)
+
+
+def judge_rotation(case: Dict[str, Any]) -> List[Tuple[str, Any, Any, str]]:
+    """extract_text_to_fp(rotation=R): every page is turned by (its Rotate + R) reduced to 0-359.  Observed through the
+    XML output parsed back: <page bbox>, the filled rectangle's <rect bbox> and the glyph's <text>."""
+    import xml.etree.ElementTree as ET
+
+    from pdfminer.high_level import extract_text_to_fp
+
+    exp, _ = expected_pages(case["nodes"], case["attrs"])
+    R = case["rotation"]
+    out = io.BytesIO()
+    try:
+        extract_text_to_fp(io.BytesIO(case["data"]), out, output_type="xml", codec="utf-8", laparams=None, rotation=R)
+        root = ET.fromstring(out.getvalue())
+    except Exception as e:  # noqa
+        return [(f"C04/rotation-arg:exception:{exc_sig(e)}", "xml output", exc_sig(e), "extract_text_to_fp(rotation=) raised / wrote malformed XML")]
+    pages = root.findall("page")
+    if len(pages) != len(exp):
+        return [("C04/rotation-arg:page-count", len(exp), len(pages), "extract_text_to_fp yields a different number of pages")]
+
+    def box(el):
+        return tuple(float(x) for x in el.get("bbox").split(","))
+
+    for e, pg in zip(exp, pages):
+        r = (e["rotate"] + R) % 360
+        ebbox, emat = pt.page_geometry(e["mediabox"], r, e["point"])
+        tag = f"page Rotate {e['rotate']} + rotation {R}"
+        if not num_eq(ebbox, box(pg)):
+            sig = f"C04/rotation-arg:page-bbox:effective={r}"
+            if not (0 <= e["rotate"] + R < 360) and num_eq(pt.page_geometry(e["mediabox"], 0, e["point"])[0], box(pg)):
+                sig = "C04/rotation-arg:sum-not-reduced-treated-as-0"
+            return [(sig, ebbox, box(pg), f"{tag}: page box is not the MediaBox turned by (Rotate + rotation) mod 360")]
+        rects = [box(x) for x in pg.iter("rect")]
+        erect = pt.rect_bbox(emat)
+        if len(rects) != 1 or not num_eq(erect, rects[0]):
+            unreduced = e["rotate"] + R
+            sig = f"C04/rotation-arg:rect-position:effective={r}"
+            if not (0 <= unreduced < 360) and rects and num_eq(pt.rect_bbox(pt.page_geometry(e["mediabox"], 0, e["point"])[1]), rects[0]):
+                sig = "C04/rotation-arg:sum-not-reduced-treated-as-0"
+            return [(sig, erect, rects, f"{tag}: the rectangle is not where a clockwise turn by (Rotate + rotation) mod 360 puts it")]
+        texts = [(x.text, x.get("font")) for x in pg.iter("text")]
+        if [t for t, _ in texts] != [e["letter"]]:
+            return [("C04/rotation-arg:page-content", e["letter"], texts, f"{tag}: the page does not show its glyph")]
+    return []
+
+
+def fam_rotation(st, tier, mi):
+    mb = (MEDIABOX_POOL + MEDIABOX_REVERSED)[mi]
+    nodes = next(pt.typed_trees(2))
+    first = True
+    for rot in ROTATE_POOL:
+        for R in ROTATION_ARGS:
+            attrs: List[Dict[str, Any]] = [{"Resources": "A", "MediaBox": mb}, {"Rotate": rot}]
+            data = pt.build(nodes, attrs, rect=True)
+            case = {"part": "rotation", "nodes": nodes, "attrs": attrs, "rotation": R, "data": data}
+            res = judge_rotation(case)
+            for sig, e, o, what in res:
+                st.violation(sig, case, e, o, what)
+            r = (pt.reduce_rotate(rot) + R) % 360
+            st.case(None, nontrivial=bool(R) or bool(r), outcome=("rotarg", r, mb, bool(res)))
+            st.states += 1
+            st.transitions += 1
+            st.traces += 1
+            if first:
+                st.sample({"rotation_argument": True, "Rotate": rot, "rotation": R, "mediabox": mb})
+                first = False
+
+
 def fam_geometry(st, tier, mi):
     from pdfminer.high_level import extract_pages
     from pdfminer.layout import LTChar, LTContainer
@@ -534,6 +604,7 @@ def shards(tier):
         step = 1 if n >= 6 else 4
         out += [("cycle", n, lo, min(lo + step, nt)) for lo in range(0, nt, step)]
     out += [("geom", mi) for mi in range(len(MEDIABOX_POOL) + len(MEDIABOX_REVERSED))]
+    out += [("rotarg", mi) for mi in range(len(MEDIABOX_POOL) + len(MEDIABOX_REVERSED))]
     out += [("sel", ti, entry) for ti in range(3) for entry in ("get_pages", "extract_text", "extract_pages")]
     return out
 
@@ -577,6 +648,8 @@ def run_shard(shard, tier, st):
         _, n, lo, hi = shard
         for ti in range(lo, hi):
             fam_cycle(st, tier, n, ti)
+    elif fam == "rotarg":
+        fam_rotation(st, tier, shard[1])
     elif fam == "geom":
         fam_geometry(st, tier, shard[1])
     elif fam == "sel":
@@ -604,6 +677,8 @@ def replay(case):
         res = judge_selection(case)
     elif part == "geometry":
         res = judge_geometry(case)
+    elif part == "rotation":
+        res = judge_rotation(case)
     else:
         res = judge_tree(case)
     return [{"signature": s, "expected": repr(e)[:1500], "observed": repr(o)[:1500]} for s, e, o, _ in res]
